@@ -221,11 +221,11 @@ func openFrom(cat *lungo.Catalog) (*hEnv, error) {
 // ---------------------------------------------------------------- C02: atomicity of failing writes
 
 type oracleAtomic struct {
-	catB      *lungo.Catalog
-	dumpB     string
-	matchedB  int64
-	failAtK   int // counted for NT
-	multiFail int
+	catB       *lungo.Catalog
+	dumpB      string
+	matchedB   int64
+	failAtK    int // counted for NT
+	multiFail  int
 	storeFails int
 }
 
